@@ -18,6 +18,10 @@ func (vc *VC) call(st *State, x *ssa.Call) {
 	var aname string
 	var aord int
 	var aargs []Val
+	if vc.callPC == nil {
+		vc.callPC = map[ssa.Instruction]Term{}
+	}
+	vc.callPC[x] = st.pc // `called(NAME, N)`: this execution reaches the call
 	hasAnchors := vc.contract != nil && len(vc.contract.Asserts) > 0
 	if hasAnchors {
 		c := x.Common()
@@ -351,7 +355,7 @@ func (vc *VC) applyContract(st *State, c *Contract, key string, sig *types.Signa
 		}
 	}
 	for _, en := range c.Ensures {
-		if usesCall(en.E, "callres") || usesCall(en.E, "callarg") || usesCall(en.E, "keys") {
+		if usesCall(en.E, "callres") || usesCall(en.E, "callarg") || usesCall(en.E, "called") || usesCall(en.E, "keys") {
 			continue // internal clause (own call sites / own literal tables): not part of the interface
 		}
 		t, err := post.EvalBool(en.E)
